@@ -8,8 +8,8 @@ from tartiflette import Resolver, TypeResolver, Scalar, Directive, Subscription
 from tartiflette.schema.registry import SchemaRegistry
 
 META = {
-    "bounds": "3 schema/implementation bundles with identical type and field names (per-field type_resolver, @TypeResolver, default type resolution; scalar, directive, "
-              "subscription, resolvers that differ per bundle), all subsets of 2-3 bundles x every registration order x every cooking order (engine builds concrete, at import); "
+    "bounds": "4 schema/implementation bundles (one bare: no subscription source, no type resolver) with identical type and field names (per-field type_resolver, @TypeResolver, default type resolution; scalar, directive, "
+              "subscription, resolvers that differ per bundle), all subsets of 2-3 of the first three bundles + the bare one next to a full one, x every registration order x every cooking order, + 3 pairings of the unnamed \"default\" schema with a named one x 4 orders (engine builds concrete, at import); "
               "registry lookups with a symbolic schema name (all strings) against concretely registered names",
     "outside": "more than 3 bundles; schema names are concrete when objects are registered (registering under a symbolic name inserts it in a dict, which realises it)",
     "explanation": "Each co-resident engine must answer every probe request exactly like the same bundle built alone after SchemaRegistry.clean().",
@@ -89,6 +89,9 @@ def _register(i, SN):
     async def echo(parent, args, ctx, info):
         return args.get("x")
 
+    if i == 4:
+        return          # the bare bundle: resolvers, scalar and directive only — no @Subscription, no @TypeResolver, no per-field type resolver
+
     @Subscription("Subscription.s", **SN)
     async def s(parent, args, ctx, info):
         yield {"s": i}
@@ -99,19 +102,25 @@ def probe(eng, x):
     out = [env.run(eng.execute(q, variables={"x": x} if "$x" in q else {})) for q in REQUESTS]
 
     async def consume():
-        return [r async for r in eng.subscribe(SUB)]
+        try:
+            return [r async for r in eng.subscribe(SUB)]
+        except Exception as e:      # a schema without a source for Subscription.s refuses to stream
+            return ["raised " + type(e).__name__]
     out.append(env.run(consume()))
     return out
 
 
 def oracle(i, x):
     """what bundle i answers when built alone — written from the bundle definitions above (independent of the engine and of process-wide state)"""
-    pet = {1: {"__typename": "Cat", "name": "liar1", "lives": 9}, 2: {"__typename": "Dog", "name": "liar2"}, 3: {"__typename": "Dog", "name": "liar3"}}[i]
+    pet = {1: {"__typename": "Cat", "name": "liar1", "lives": 9}, 2: {"__typename": "Dog", "name": "liar2"}, 3: {"__typename": "Dog", "name": "liar3"}, 4: {"__typename": "Dog", "name": "liar4"}}[i]
     u = {"__typename": "Dog", "name": "dog%d" % i} if i != 3 else {"__typename": "Cat", "name": "cat3"}
     pets = [{"__typename": "Dog", "name": "liar%d" % i}, {"__typename": "Dog", "name": "dog%d" % i}]
     echo = None if x is None else (x * 100 + i) * 10 + i
     return [{"data": {"pet": pet}}, {"data": {"u": u}}, {"data": {"pets": pets}}, {"data": {"item": 70 + i, "v": i + 100 * i}}, {"data": {"echo": echo}},
-            {"data": {"echo": (5000 + i) * 10 + i}}, [{"data": {"s": i}}, {"data": {"s": 10 * i}}]]
+            {"data": {"echo": (5000 + i) * 10 + i}}, [{"data": {"s": i}}, {"data": {"s": 10 * i}}] if i != 4 else NO_SOURCE]
+
+
+NO_SOURCE = ["raised Exception"]      # "Can't execute a subscription query on a field which doesn't provide a source event stream"
 
 
 def _fresh_process_alone(i):
@@ -131,7 +140,7 @@ CHILD = _os.environ.get("VF_C17_CHILD") == "1"
 # ---- references: each bundle built alone in a clean registry ------------------------------------------------------
 ALONE = {}
 FRESH_ALONE = {}
-for _i in (() if CHILD else (1, 2, 3)):
+for _i in (() if CHILD else (1, 2, 3, 4)):
     FRESH_ALONE[_i] = _fresh_process_alone(_i)
     SchemaRegistry.clean()
     register(_i, "alone_%d" % _i)
@@ -140,7 +149,7 @@ for _i in (() if CHILD else (1, 2, 3)):
 SchemaRegistry.clean()
 COMBOS = []
 ENG = {}
-for _sub in (() if CHILD else ([1, 2], [1, 3], [2, 3], [1, 2, 3])):
+for _sub in (() if CHILD else ([1, 2], [1, 3], [2, 3], [1, 2, 3], [2, 4])):
     for _reg in itertools.permutations(_sub):
         for _cook in itertools.permutations(_sub):
             _c = len(COMBOS)
@@ -152,17 +161,24 @@ for _sub in (() if CHILD else ([1, 2], [1, 3], [2, 3], [1, 2, 3])):
 # the unnamed ("default") schema next to named ones, both orders
 DEFAULT_SCEN = []
 if not CHILD:
-    for _order in (("default", "named"), ("named", "default")):
-        _c = len(COMBOS)
-        COMBOS.append({"subset": [3, 1], "reg": list(_order), "cook": list(_order), "default_schema": 3})
-        for _who in _order:
-            if _who == "default":
+    # (bundle under "default", bundle under a name, registration order, cooking order); the bare bundle 4 next to a default bundle that has a
+    # subscription source and a @TypeResolver is the interesting pairing: nothing of "default" may fill the gaps of the named schema
+    for _bd, _bn in ((3, 1), (2, 4), (4, 2)):
+        for _reg in (("default", "named"), ("named", "default")):
+            for _cook in (("default", "named"), ("named", "default")):
+                _c = len(COMBOS)
+                COMBOS.append({"subset": [_bd, _bn], "reg": list(_reg), "cook": list(_cook), "default_schema": _bd})
                 SchemaRegistry._schemas.pop("default", None)
-                register(3, None)
-                ENG[(_c, 3)] = env.build(SDL, None, query_cache_decorator=DictCache())
-            else:
-                register(1, "co_%d_1" % _c)
-                ENG[(_c, 1)] = build(SDL, "co_%d_1" % _c, query_cache_decorator=DictCache())
+                for _who in _reg:
+                    if _who == "default":
+                        register(_bd, None)
+                    else:
+                        register(_bn, "co_%d_%d" % (_c, _bn))
+                for _who in _cook:
+                    if _who == "default":
+                        ENG[(_c, _bd)] = env.build(SDL, None, query_cache_decorator=DictCache())
+                    else:
+                        ENG[(_c, _bn)] = build(SDL, "co_%d_%d" % (_c, _bn), query_cache_decorator=DictCache())
 for _e in list(ALONE.values()) + list(ENG.values()):
     probe(_e, 1)
 
@@ -189,13 +205,13 @@ def c17_coresident(c: int, b: int, x: Optional[int]) -> bool:
     return verdict(ok and got == ref)
 
 
-@obligation(tier="quick", timeout=60, samples=[{"i": 0}, {"i": 2}], selectors=["i: bundle"], bounds="3 bundles",
+@obligation(tier="quick", timeout=60, samples=[{"i": 0}, {"i": 2}], selectors=["i: bundle"], bounds="4 bundles",
             note="reference validity: each bundle built alone in a fresh process (and alone after SchemaRegistry.clean() in this process) answers exactly what the oracle says")
 def c17_alone(i: int) -> bool:
     """
     post: _
     """
-    i = 1 + pick(i, 3)
+    i = 1 + pick(i, 4)
     ok, here = safe(lambda: probe(ALONE[i], 3))
     observe(FRESH_ALONE[i], here, oracle(i, 3))
     return verdict(ok and FRESH_ALONE[i] == oracle(i, 3) and here == oracle(i, 3))
